@@ -230,6 +230,6 @@ def chunks(tier, seed):
             yield (d, ESC_PATHS)
         for i, (d, paths) in enumerate(ec.gen_cases(tier, seed, with_collectors=False)):
             ps = [p for p in paths if "(" not in p]
-            if ps and (thorough or i % 3 == 0):
+            if ps and i % (2 if thorough else 3) == 0:
                 yield (d, ps)
     return ec.chunks_by_weight(gen(), 1500)
